@@ -1602,6 +1602,7 @@ static int format_buffer_hexadecimal(struct cat_object *self, cat_fsm_type fsm)
 
         buf = var->data;
         for (i = 0; i < var->data_size; i++) CAT_VERIF_LOOP(format_buffer_hexadecimal) {
+                CAT_VERIF_GHOST(format_buffer_hexadecimal_iter)
                 if (var->access == CAT_VAR_ACCESS_WRITE_ONLY) {
                         val = 0;
                 } else {
@@ -1637,6 +1638,7 @@ static int format_buffer_string(struct cat_object *self, cat_fsm_type fsm)
 
         buf = var->data;
         for (i = 0; i < buf_size; i++) CAT_VERIF_LOOP(format_buffer_string) {
+                CAT_VERIF_GHOST(format_buffer_string_iter)
                 ch = buf[i];
                 if (ch == 0)
                         break;
@@ -1655,6 +1657,7 @@ static int format_buffer_string(struct cat_object *self, cat_fsm_type fsm)
                 }
         }
 
+        CAT_VERIF_GHOST(format_buffer_string_iter)
         if (print_string_to_buf(self, "\"", fsm) != 0)
                 return -1;
 
